@@ -73,6 +73,12 @@ def main(inp, outp):
                 kw["events"] = user
             elif style == "events-listener+listeners":
                 kw.update(events=user, listeners=lst)
+            elif style == "events-signal10":
+                # the caller adds a listener of the SAME TYPE as one of the station's own: AOS / LOS at 10 degrees come on top of, not
+                # instead of, the horizon ones
+                kw["events"] = L.StationSignalListener(station, np.radians(10))
+            elif style == "events-own-types":
+                kw["events"] = [L.StationSignalListener(station, np.radians(5)), L.StationMaxListener(stations["south"])]
             stream = []
             err = None
             try:
@@ -84,10 +90,14 @@ def main(inp, outp):
                     else:
                         cname = type(ev).__name__
                         cls = {"SignalEvent": "signal", "MaxEvent": "max", "MaskEvent": "mask"}.get(cname, "other")
+                        if cls != "other" and getattr(getattr(ev, "listener", None), "station", station) is not station:
+                            cls = "other-station"   # an AOS / LOS / MAX about ANOTHER station: the library lets it through by its class
+                        if cls == "signal" and float(getattr(ev, "elev", 0) or 0) != 0.0:
+                            cls = "other"          # AOS / LOS at another threshold than the horizon: a listener of the caller's
                         lab = str(ev.info).split()[0] if cls != "other" else "other"
                         zval = abs(float(p.phi)) if cls == "signal" else abs(float(p.phi_dot)) if cls == "max" else 0.0
                         it.update(k="E", cls=cls, lab=lab, z=int(min(round(zval * 1e9), 2000000000)), info=str(ev.info))
-                    it["up"] = sgn(float(p.phi), 1e-7) if it["k"] == "S" or it["cls"] == "other" else 0
+                    it["up"] = sgn(float(p.phi), 1e-7) if it["k"] == "S" or it["cls"] in ("other", "other-station") else 0
                     stream.append(it)
                     if len(stream) > 20000:
                         raise RuntimeError("more than 20000 items")
